@@ -19,3 +19,5 @@ pub mod resolver;
 pub mod runtime;
 pub mod syntax;
 pub mod sys;
+#[cfg(feature = "verif")]
+pub mod verif;
